@@ -96,10 +96,15 @@ def check(model, rep):
         n_writers += 1
         exits = an.run_public(fi)
         stale = sorted({t for e in exits for t in e.state[0].tables})
-        rep.ob('R09.2', fi, 'FK tables fresh on every exit of ' + fi.name, not stale,
-               'the plate-fixed joint coordinates %s are replaced but the FK tables captured at construction are not re-derived: '
-               'FK keeps solving for the old geometry' % [s_.split(':')[1] for s_ in stale])
+        rep.ob('R09.2', fi, 'tables derived from the plate-fixed joints fresh on every exit of ' + fi.name, not stale,
+               'the plate-fixed joint coordinates are replaced but %s (computed from them: %s) %s not re-derived or reset afterwards: '
+               'FK keeps solving for the old geometry' % (', '.join('self.' + s_.split(':')[1] for s_ in stale),
+                                                          '; '.join('%s <- %s' % (s_.split(':')[1], '/'.join(sorted(an.caches.get(s_.split(':')[1], [])))) for s_ in stale),
+                                                          'is' if len(stale) == 1 else 'are'))
     rep.floor('R09.2', 'public methods replacing the plate-fixed joints', n_writers, 2)
+    rep.count('fields caching a function of the plate-fixed joints', len(an.caches))
+    rep.floor('R09.2', 'cache fields of the plate-fixed joints', len(an.caches), 2)
+    rep.note('caches of the plate-fixed joint tables: %s' % {k: sorted(v) for k, v in sorted(an.caches.items())})
     init = sp.methods['__init__']
     tabs = {src(n.targets[0]): src(n.value).replace(' ', '') for n in walk_own(init.node) if isinstance(n, ast.Assign) and 'joints_init' in src(n.targets[0])}
     ok = tabs.get('self._bottom_joints_init', '').startswith('self._bottom_joints_local') and tabs.get('self._top_joints_init', '').startswith('self._top_joints_local') \
@@ -113,8 +118,29 @@ def check(model, rep):
     kc = [c for c in walk_own(fr.node) if isinstance(c, ast.Call) and src(c.func).endswith('SPFKinSpaceR')]
     for c in kc:
         a = [src(x).replace(' ', '') for x in c.args]
-        ok = len(a) == 8 and a[0] == 'L' and a[2] == 'self._bottom_joints_init' and a[3] == 'self._top_joints_init' and a[7] == 'self.leg_ext_min'
-        rep.ob('R09.3', fr, src(c)[:80], ok, 'SPFKinSpaceR receives %s' % a, line=c.lineno)
+        def lineage(e):
+            out, todo, seen = set(), list(an.field_reads(fr, e)), set()
+            while todo:
+                x = todo.pop()
+                if x in seen:
+                    continue
+                seen.add(x)
+                if x in ('_bottom_joints_local', '_top_joints_local'):
+                    out.add(x)
+                todo.extend(an.caches.get(x, ()))
+            return out
+        if len(a) != 8:
+            rep.ob('R09.3', fr, src(c)[:80], False, 'SPFKinSpaceR takes 8 arguments, receives %s' % a, line=c.lineno)
+            continue
+        lb, lt = lineage(c.args[2]), lineage(c.args[3])
+        if lb == {'_bottom_joints_local'} and lt == {'_top_joints_local'}:
+            ok = a[0] == 'L' and a[7] == 'self.leg_ext_min'
+            rep.ob('R09.3', fr, src(c)[:80], ok, 'SPFKinSpaceR receives %s' % a, line=c.lineno)
+        elif len(lb) == 2 or len(lt) == 2:
+            rep.unresolved_item('R09.3', '%s:%d' % (fr.module.relpath, c.lineno), 'joint-table arguments come from a value that mixes both plates (%s / %s): plate order not decided' % (a[2], a[3]))
+        else:
+            rep.ob('R09.3', fr, src(c)[:80], False, 'SPFKinSpaceR needs (bottom table, top table); argument 2 derives from %s and argument 3 from %s'
+                   % (sorted(lb) or 'no joint table', sorted(lt) or 'no joint table'), line=c.lineno)
     rep.floor('R09.3', 'Raphson kernel call sites', len(kc), 2)
     co = [n for n in walk_own(fr.node) if isinstance(n, ast.Assign) and src(n.targets[0]) == 'coords']
     rep.ob('R09.3', fr, 'solved pose = bottom pose @ tm(relative solution)', len(co) == 1 and src(co[0].value).replace(' ', '') == 'bottom_plate_pos_backup@tm(attempt)',
